@@ -100,11 +100,14 @@ CLAIMED = {
    "Client commits (below / above the scaled commit-queue and log-queue limits, empty transaction, second and third client), shutdown at whatever point the schedule reached, join, drop, reopen without threads: every accepted commit present. Subsets of workers model arbitrarily slow workers. Liveness scenarios: after a commit the client only watches the queue; it must drain without further client activity. loom reports any schedule in which a thread blocks forever (commit never returns, worker never exits, join hangs).",
    "Scaled thresholds (commit queue 64 B, log queue 512 B, 1 dirty log file) exercise the production code paths with smaller numbers. Quick tier: the all-worker scenarios hit the 40 s wall cap (reported, exhaustive=false); worker-subset, liveness and throttling scenarios complete. No spurious wake-ups.",
    "DESIGN.md §3 E3, §4 C15"),
+ "C14": ("seqmc+parser", "model_checking",
+   "explicit-state graph search over insert/overwrite/remove histories of every column kind with an independent file-format parser evaluated at every quiescent state, after reopen and after crash recovery",
+   "The parser (written from the format comments, sharing no code with the crate) reads index, value-table and ref-count files: free lists acyclic / in range / tombstones only; every index entry resolves to a keyed value (inert leftovers only after growth); btree walked from its header (keys strictly ascending, leaves at the recorded depth, values read); tree nodes walked from the roots with parent counts compared to the ref-count table; every slot below a fill mark is in exactly one live chain or on the free list exactly once; counts and (uncompressed) values equal the model's. Histories: 2-3 keys x {5 B, 300 B, 9000 B chained} sets/removals, set/ref/deref on a counting column, trees sharing nodes dereferenced in every order, a btree grown to depth >= 2 and shrunk again, stage-interleaved variants, reopen, crash + recovery + clean drop.",
+   "Hashed keys cannot be recomputed by the parser (the key tail stored with the value is not compared with the model's keys; counts and values are). Known finding F-C14-claimed-entries-leak after crashes. Index growth histories are not parsed.",
+   "DESIGN.md §4 C14"),
 }
 
-NOT_YET = {
- "C14": "the independent file-format parser is not built in this revision; parts of the property are decided elsewhere (storage release and free-list walk in C06, entry counts in C10, scans in C04, value iteration in C07) but C14 itself is not claimed",
-}
+NOT_YET = {}
 
 def main():
     props = [json.loads(l) for l in open(os.path.join(ROOT, "properties.jsonl"))]
